@@ -151,31 +151,60 @@ def r2(ctx):
     okt = tail.get("k") == "tup" and [pretty(strip(z_)) for z_ in tail["xs"]] == ["loss", "acc"]
     ctx.check("R12.2", "per-sample-pair", okt, "per-sample-result:" + short(pretty(tail), 40), c.loc(fn, inner), "(loss, acc) per sample")
     # aggregation
-    un = [s for s in stmts if s.get("k") == "let" and s["init"] is not None and "results.into_iter().unzip()" == pretty(strip(s["init"]))]
-    oku = len(un) == 1 and [n for (n, _) in pat_binds(un[0]["pat"])] == ["loss", "acc"]
-    ctx.check("R12.2", "unzip", oku, "unzip", c.loc(fn), "(loss, acc) = results.into_iter().unzip()")
-
-    def hook(N, n):
-        if n.get("k") == "mcall" and n["name"] == "sum":
-            nm, bs = chain_of(n["recv"])
-            if nm == ["iter"] and bs.get("k") == "local":
-                return Rat.atom("SUM(%s)" % bs["name"])
-            raise ValueError("sum over " + short(pretty(n["recv"]), 40))
-        return None
-    tail = strip(stmts[-1])
-    okm = False
+    # aggregation, on the E6 summary: the result is (sum(L) / len(L) as f32, sum(A) / len(A) as f32) where L and A are the first and second
+    # components of one and the same sequence of per-sample pairs (unzip, or one push of each component per pair)
+    from .. import e6
+    Ev = e6.Exec(c, fn)
+    lv = [p_ for p_ in Ev.run_fn() if p_.exit is None or p_.exit[0] == "return"]
+    oku = okm = bool(lv)
     got = "?"
-    if tail.get("k") == "tup" and len(tail["xs"]) == 2:
-        from .. import arms as _arms
-        N = e1.Norm(c, _arms.fn_level_env(c, fn, upto=stmts[-1], hook=hook))     # named means (`let mean_loss = ..`) are expanded
-        N.reduce_hook = hook
-        try:
-            vals = [N.norm(x) for x in tail["xs"]]
-            got = ", ".join(str(v) for v in vals)
-            okm = vals == [Rat.atom("SUM(loss)") / Rat.atom("len(loss)"), Rat.atom("SUM(acc)") / Rat.atom("len(acc)")]
-        except ValueError as e:
-            got = str(e)
-    ctx.check("R12.2", "means", okm, "aggregation:" + short(got, 80), c.loc(fn, tail), "(sum(loss)/len(loss), sum(acc)/len(acc))", "validate returns (%s)" % got)
+
+    def component(t, k, P_):
+        """-> the sequence of pairs t is the k-th component list of, or None"""
+        if isinstance(t, tuple) and t and t[0] == "proj" and t[2] == k:
+            u = e6.is_call(t[1], "unzip", 1)
+            return e6.strip_upd(u[0]) if u else None
+        if isinstance(t, tuple) and len(t) == 4 and t[0] == "loopout":
+            name, lid_, entry = t[1], t[2], t[3]
+            S_ = Ev.loop_summaries.get(lid_)
+            if S_ is None or S_.get("kind") != "for" or len(S_["paths"]) != 1 or S_["paths"][0].pc or S_["paths"][0].exit is not None:
+                return None
+            if not (e6.is_call(entry, "new", 0) is not None or e6.is_call(entry, "with_capacity", 1) is not None or entry == ("vec", ())):
+                return None
+            el_ = ("elem", S_["iter"], lid_)
+            pushes = [e_ for e_ in S_["paths"][0].eff if e_[0] == "push" and e_[1] == ("local", name)]
+            others = [e_ for e_ in S_["paths"][0].eff if e_[0] not in ("push", "loop")]
+            if len(pushes) == 1 and not others and pushes[0][2] == ("proj", el_, k):
+                return e6.strip_upd(S_["iter"])
+        return None
+    for P_ in lv:
+        v_ = P_.val if P_.exit is None else P_.exit[1]
+        got = e6.show(v_, 3)[:160]
+        if not (isinstance(v_, tuple) and v_ and v_[0] == "tup" and len(v_[1]) == 2):
+            oku = okm = False
+            continue
+        seqs = []
+        for k_, a_ in enumerate(v_[1]):
+            good = False
+            if isinstance(a_, tuple) and a_[0] == "bin" and a_[1] == "Div":
+                sm = e6.is_call(a_[2], "sum", 1)
+                dn = a_[3]
+                ln = e6.is_call(dn[1], "len", 1) if isinstance(dn, tuple) and dn and dn[0] == "cast" and dn[2] == "f32" else None
+                if sm and ln and e6.strip_upd(sm[0]) == e6.strip_upd(ln[0]):
+                    R_ = component(sm[0], k_, P_)
+                    if R_ is not None:
+                        seqs.append(R_)
+                        good = True
+                else:
+                    okm = False
+            else:
+                okm = False
+            oku = oku and good
+        if len(seqs) == 2 and seqs[0] != seqs[1]:
+            oku = False
+    ctx.check("R12.2", "unzip", oku, "unzip", c.loc(fn), "(loss, acc) = results.into_iter().unzip()",
+              "validate returns (%s): the two means must be taken over the first and the second components of the same per-sample results" % got)
+    ctx.check("R12.2", "means", okm, "aggregation:" + short(got, 80), c.loc(fn), "(sum(loss)/len(loss), sum(acc)/len(acc))", "validate returns (%s)" % got)
     return inner, il, ipb
 
 
